@@ -179,6 +179,9 @@ def gen_step_case(rng, max_calls=4, allow_fail=True):
             c["res"] = {"cores": cores}
             if tpc > 1:
                 c["res"]["threads_per_core"] = tpc
+        elif not use_cores and rng.random() < 0.4:
+            # a worker limit counts calls, not cores: multi-core calls under max_workers
+            c["res"] = {"cores": rng.randint(1, 3)}
         else:
             c["res"] = {}
         calls.append(c)
